@@ -19,10 +19,11 @@ import tla
 import vcheck
 
 
-def gen(ctx, strength, nrandom, path):
+def gen(ctx, strength, nrandom, path, seqpath=None, nseq=0):
     r = tla.run_tlc(ctx.specdir(), "CodecGen.tla", "CodecGen.cfg", workers=1, timeout=1500, heap="8g",
                     extra=["-seed", str(ctx.seed)],
-                    env_extra={"STRENGTH": str(strength), "NRANDOM": str(nrandom), "CASES_FILE": path})
+                    env_extra=dict({"STRENGTH": str(strength), "NRANDOM": str(nrandom), "CASES_FILE": path},
+                                   **({"SEQ_FILE": seqpath, "NSEQ": str(nseq)} if seqpath else {})))
     ctx.log("tlc CodecGen strength=%d nrandom=%d: rc=%s %.1fs" % (strength, nrandom, r.rc, r.wall))
     if r.rc != 0 or not os.path.exists(path):
         print(r.out[-3000:])
@@ -34,10 +35,13 @@ def gen(ctx, strength, nrandom, path):
     return n
 
 
-def decide(ctx, trace, fuzz, replaying=False):
+def decide(ctx, trace, fuzz, replaying=False, seqtrace=None):
     verdict = os.path.join(ctx.work, "c08_verdict.ndjson")
+    if seqtrace is None:
+        seqtrace = os.path.join(ctx.work, "c08_noseq.ndjson")
+        open(seqtrace, "w").close()
     r = tla.run_tlc(ctx.specdir(), "CodecTrace.tla", "CodecTrace.cfg", workers=1, timeout=3000, heap="8g",
-                    env_extra={"TRACE_FILE": trace, "FUZZ_FILE": fuzz, "VERDICT_FILE": verdict})
+                    env_extra={"TRACE_FILE": trace, "FUZZ_FILE": fuzz, "SEQ_TRACE_FILE": seqtrace, "VERDICT_FILE": verdict})
     ctx.log("tlc CodecTrace: rc=%s %.1fs" % (r.rc, r.wall))
     if r.rc != 0 or not os.path.exists(verdict):
         print(r.out[-3000:])
@@ -70,6 +74,24 @@ def decide(ctx, trace, fuzz, replaying=False):
         ctx.violation("C08:totality:%s:%s" % (row["dec"], row["outcome"]),
                       "decoder %s: %s on %d input(s) of class %s (%s)" % (row["dec"], row["outcome"], row["n"], row["class"], row.get("detail", "")[:160]),
                       row)
+    seqs = [json.loads(l) for l in open(seqtrace)] if os.path.getsize(seqtrace) else []
+    if v.get("nseq") != len(seqs):
+        raise vcheck.Infra("verdict covers %s of %d sequence observations" % (v.get("nseq"), len(seqs)))
+    for b in v["badseq"]:
+        so = seqs[b["n"] - 1]
+        case = {"seq": True, "rec": so["rec"], "fmt": so["fmt"], "items": so["items"], "ok": so["ok"], "got": so["got"],
+                "extra": so.get("extra"), "stage": so.get("stage"), "err": so.get("err"), "bad_items": b["items"]}
+        fields = sorted({f for it in b["items"] for f in it["fields"]})
+        for fld in fields:
+            ctx.violation("C08:%s:%s[]%s" % (so["fmt"], so["rec"], "" if fld.startswith("<") else "." + fld) + (":" + fld.strip("<>") if fld.startswith("<") else ""),
+                          "%d %s values through one %s encoder/decoder: %s (%s %s)" % (
+                              len(so["items"]), so["rec"], so["fmt"],
+                              {"<error>": "the whole restore/decode fails or an item is missing/undecodable",
+                               "<count>": "the number of values changed", "<extra>": "values appear that were never stored"}.get(
+                                  fld, "field %s of an item comes back different from what was stored in its slot" % fld),
+                              so.get("stage") or "", (so.get("err") or "")[:160]), case)
+    ctx.traces_validated += len(seqs) - len(v["badseq"])
+    ctx.extra["sequence_observations_decided_by_tlc"] = len(seqs)
     ctx.traces_validated += len(recs) - nbad
     ctx.extra["observations_decided_by_tlc"] = len(recs)
     ctx.extra["decoder_outcome_rows_decided_by_tlc"] = len(rows)
@@ -81,7 +103,10 @@ def run(ctx):
     ctx.rule = ("a case = (record type, format, abstract value); quick: pairwise-complete over 2-3 base values per record type "
                 "x every format of the record + 2000 seeded values from the full product of the pin domains; thorough: "
                 "three-wise-complete + 60000; non-trivial = the value is not the minimal base value; distinct by abstract content. "
-                "Decoder totality inputs are counted separately (decoder_inputs_sampled) and are SAMPLING: structured "
+                "Sequence cases (several values through one encoder/decoder: 2..8-pin states through the dsstate snapshot into a fresh / "
+                "a non-empty in-memory datastore and through the export stream; lists of every record type via msgpack and JSON): all "
+                "ordered pairs over the one-field variations of the minimal base and all bases + 40 (quick) / 1500 (thorough) seeded "
+                "sequences per length 3..8, record type and format. Decoder totality inputs are counted separately (decoder_inputs_sampled) and are SAMPLING: structured "
                 "corruptions of real encodings (every truncation offset, byte substitutions at every offset, inserted "
                 "oversize lengths, wrong type / invalid CID-peer-multiaddr / non-UTF8 per field, deep nesting) + seeded random bytes")
     ctx.assumptions = [
@@ -96,16 +121,17 @@ def run(ctx):
     ]
     quick = ctx.quick()
     cases = os.path.join(ctx.work, "c08_cases.ndjson")
+    seqcases = os.path.join(ctx.work, "c08_seqcases.ndjson")
     if quick:
         # SPEC
         ctx.tlc("CodecMC.tla", "CodecMC_quick.cfg", workers=8, timeout=3000)
         # GEN
-        n = gen(ctx, 2, 2000, cases)
+        n = gen(ctx, 2, 2000, cases, seqcases, 40)
     else:
         # SPEC + GEN in one run: every state of the three-wise model is a case, printed by the (parallel) model
         # checker while it checks the laws of Proj on it; the seeded full-product sample comes from CodecGen
         r = ctx.tlc("CodecMC.tla", "CodecMC_emit.cfg", workers=8, timeout=3000, heap="8g")
-        n = gen(ctx, 1, 60000, cases)
+        n = gen(ctx, 1, 60000, cases, seqcases, 1500)
         seen = set(l for l in open(cases))
         with open(cases, "a") as f:
             for line in r.out.splitlines():
@@ -124,6 +150,8 @@ def run(ctx):
     trace = os.path.join(ctx.work, "c08_obs.ndjson")
     fuzz = os.path.join(ctx.work, "c08_fuzz.ndjson")
     ctx.go_test("c08_codec", run="TestRoundTrip$", infile=cases, env={"VERIF_TRACE": trace}, timeout=3000)
+    seqtrace = os.path.join(ctx.work, "c08_seqobs.ndjson")
+    ctx.go_test("c08_codec", run="TestSequences$", infile=seqcases, env={"VERIF_TRACE": seqtrace}, timeout=3000)
     d = ctx.go_test("c08_codec", run="TestDecoderTotality$", infile=cases,
                     env={"VERIF_FUZZ": fuzz, "VERIF_FUZZ_RANDOM": 3000 if quick else 200000}, timeout=3000,
                     panic_is_violation=True)
@@ -132,7 +160,7 @@ def run(ctx):
             return
         raise vcheck.Infra("decoder totality driver wrote no outcome file")
     # V
-    decide(ctx, trace, fuzz)
+    decide(ctx, trace, fuzz, seqtrace=seqtrace)
 
 
 def replay(ctx, path):
@@ -142,7 +170,18 @@ def replay(ctx, path):
     fuzz = os.path.join(ctx.work, "c08_fuzz.ndjson")
     open(trace, "w").close()
     open(fuzz, "w").close()
-    if "dec" in case:
+    seqtrace = None
+    if case.get("seq"):
+        seqcases = os.path.join(ctx.work, "c08_seqcases.ndjson")
+        seqtrace = os.path.join(ctx.work, "c08_seqobs.ndjson")
+        pre = case["items"][1:] + case["items"][:1] if case["fmt"] == "snapshot-nonempty" else []
+        with open(seqcases, "w") as f:
+            # the snapshot is written in datastore (map) iteration order, which the code leaves free: repeat the case
+            for _ in range(32):
+                f.write(json.dumps({"rec": case["rec"], "fmt": case["fmt"], "items": case["items"], "pre": pre}) + "\n")
+        ctx.go_test("c08_codec", run="TestSequences$", infile=seqcases,
+                    env={"VERIF_TRACE": seqtrace, "VERIF_SEED": j.get("seed", ctx.seed)})
+    elif "dec" in case:
         ctx.go_test("c08_codec", run="TestDecoderTotality$", replay=os.path.abspath(path), env={"VERIF_FUZZ": fuzz})
     elif "rec" in case:
         cases = os.path.join(ctx.work, "c08_cases.ndjson")
@@ -152,5 +191,5 @@ def replay(ctx, path):
         ctx.go_test("c08_codec", run="TestRoundTrip$", infile=cases, env={"VERIF_TRACE": trace, "VERIF_SEED": ctx.seed})
     else:
         raise vcheck.Infra("replay file holds neither an observation nor a decoder input")
-    decide(ctx, trace, fuzz, replaying=True)
+    decide(ctx, trace, fuzz, replaying=True, seqtrace=seqtrace)
     ctx.samples.append(case)
